@@ -56,6 +56,12 @@ func (r *scriptReader) Read(p []byte) (n int, err error) {
 		r.lastErr = errSpin
 		return 0, errSpin
 	}
+	if r.eofs > 0 && r.pos == len(r.data) {
+		// A stream that has ended stays ended.
+		r.eofs++
+		r.lastErr = io.EOF
+		return 0, io.EOF
+	}
 	want := len(p)
 	var ev REvent
 	scripted := false
